@@ -26,6 +26,9 @@ from pvc.val import *  # noqa
 from contracts import C17
 from contracts.C17 import Ref, Frame, _k
 
+# property-level native oracle used as the replay of refuted obligations that carry no model-specific replay
+FALLBACK_REPLAY = {"handler": "bounded_any", "input": {"what": "graph_vs_solver"}, "expected": "graph reachability, components, edges and distances agree with the solver"}
+
 CG = "pandapipes.topology.create_graph"
 GS = "pandapipes.topology.graph_searches"
 ABSTRACT = ("BranchComponent", "BranchWInternalsComponent", "BranchWOInternalsComponent", "CirculationPump")
